@@ -17,6 +17,7 @@ import MakoModel.Names.Drv
 import MakoModel.ModFile.Drv
 import MakoModel.PyExpr.Drv
 import MakoModel.Control.Drv
+import MakoModel.Codegen.Attrs.Drv
 /-! Dispatch table of the driver: one line per model area (`op prefix`, handler). -/
 namespace Driver
 open MakoModel
@@ -40,6 +41,7 @@ def table : List (String × Wire.Handler) :=
   , ("modfile", ModFile.Drv.handle)
   , ("py", PyExpr.Drv.handle)
   , ("ctl", Control.Drv.handle)
+  , ("c05", Codegen.Attrs.Drv.handle)
   ]
 
 end Driver
